@@ -135,7 +135,7 @@ def spec_view(spec):
 # Hypothesis strategies (constructive: every draw is a valid spec)
 
 def st_spec(names, max_named=5, star_names=('args', 'p'), kw_names=('kwargs', 'k'),
-            p_star=0.5, default_exprs=('1',), ann_exprs=None):
+            p_star=0.5, default_exprs=('1', '1', 'None', '0', "''"), ann_exprs=None):
     from hypothesis import strategies as st
 
     @st.composite
